@@ -32,6 +32,10 @@ def run(chk, tier):
     rint.RInt(chk, lib.facts, lib.label, ("S4",)).run(
         lambda f: is_lib_or_gen(f, root) and (f.get("cls_tpl") == "sbepp::detail::bitset_base"))
     spec_set.check(chk, lib, root)
+    # what a getter returns is a wrapper object: its value() / operator* hand out the decoded representation unchanged
+    # (NaN payloads and signed zeros of optional floats are bits of the image)
+    import spec_optional
+    spec_optional.check(chk, lib)
     # cursor getters decode too: width, byte order and offsets of the cursor primitive each generated accessor forwards to
     e4.check(chk, ("accessors", "cursor"), tier)
     chk.floor("CODEC.get instantiations", chk.rule_counts.get("CODEC.get", 0), 60)
